@@ -46,6 +46,19 @@ Fixpoint listed_cache (fs : list feature) (st : N) (ca : cache) : cache :=
   | f :: r => if eligible f st then listed_cache r st (cache_put (f_lreq f, f) ca) else listed_cache r st ca
   end.
 
+(* the configured features an advertisement names (children up to the first one
+   that is not an element or does not parse), with the required flag, eligible or not *)
+Fixpoint adv_all (fs : list feature) (cs : list fchild) : cache :=
+  match cs with
+  | [] => []
+  | FCText :: _ => []
+  | FC sp lo req perr :: r =>
+      match get_feature (sp, lo) fs with
+      | Some f => if perr then [] else (req, f) :: adv_all fs r
+      | None => adv_all fs r
+      end
+  end.
+
 (* ------------------------------------------------------------------ the monitor *)
 
 Record mon := mkMon {
@@ -58,34 +71,37 @@ Record mon := mkMon {
   q_expect : option feature;    (* receiver: this feature was legitimately selected and must run next *)
   q_refused : option eclass;    (* receiver: a selection had to be refused, with this error *)
   q_self_ready : bool;          (* some feature's own mask contained Ready *)
-  q_recv : bool                 (* the last advertisement was written (receiving side), not read *) }.
+  q_recv : bool;                (* the last advertisement was written (receiving side), not read *)
+  q_advall : cache              (* every configured feature the last advertisement of the current stream
+                                   named, with its required flag, whether or not its prerequisites
+                                   held then (q_cache keeps only those whose prerequisites held) *) }.
 
-Definition mon0 (bits : N) : mon := mkMon [] [] [] 0 bits false None None false false.
+Definition mon0 (bits : N) : mon := mkMon [] [] [] 0 bits false None None false false [].
 
 Definition upd (fs : list feature) (ws : bool) (q : mon) (e : event) : mon :=
   match e with
   | EOut WHeader =>
-      mkMon [] [] [] (q_nlists q) (q_last q) false (q_expect q) (q_refused q) (q_self_ready q) (q_recv q)
+      mkMon [] [] [] (q_nlists q) (q_last q) false (q_expect q) (q_refused q) (q_self_ready q) (q_recv q) []
   | EOut (WFeatures st names true) =>
       mkMon names (listed_cache fs st []) (q_negd q) (q_nlists q) (q_last q) (q_need_header q)
-            (q_expect q) (q_refused q) (q_self_ready q) true
+            (q_expect q) (q_refused q) (q_self_ready q) true (map (fun f => (f_lreq f, f)) (listed fs st))
   | EIn RPFeatures st (mkItem false (PFeatures cs)) =>
       mkMon (adv_names cs) (adv_cache fs st cs []) (q_negd q) (S (q_nlists q)) (q_last q) (q_need_header q)
-            (q_expect q) (q_refused q) (q_self_ready q) false
+            (q_expect q) (q_refused q) (q_self_ready q) false (adv_all fs cs)
   | EIn RPSelect st it =>
       match selection_space (mkCfg fs false ws false [] None false) it with
       | Some sp =>
           match accept (q_cache q) (q_negd q) st sp with
           | Some (_, f) =>
               mkMon (q_adv q) (q_cache q) (q_negd q) (q_nlists q) (q_last q) (q_need_header q)
-                    (Some f) (q_refused q) (q_self_ready q) (q_recv q)
+                    (Some f) (q_refused q) (q_self_ready q) (q_recv q) (q_advall q)
           | None =>
               mkMon (q_adv q) (q_cache q) (q_negd q) (q_nlists q) (q_last q) (q_need_header q)
-                    (q_expect q) (Some EPolicy) (q_self_ready q) (q_recv q)
+                    (q_expect q) (Some EPolicy) (q_self_ready q) (q_recv q) (q_advall q)
           end
       | None =>
           mkMon (q_adv q) (q_cache q) (q_negd q) (q_nlists q) (q_last q) (q_need_header q)
-                (q_expect q) (Some EOther) (q_self_ready q) (q_recv q)
+                (q_expect q) (Some EOther) (q_self_ready q) (q_recv q) (q_advall q)
       end
   | ENeg f st o =>
       mkMon (q_adv q) (q_cache q) (f_space f :: q_negd q) (q_nlists q)
@@ -93,7 +109,7 @@ Definition upd (fs : list feature) (ws : bool) (q : mon) (e : event) : mon :=
             (o_restart o && negb (o_err o))
             None (q_refused q)
             (q_self_ready q || (has (o_mask o) st_Ready && negb (o_err o)))
-            (q_recv q)
+            (q_recv q) (q_advall q)
   | _ => q
   end.
 
@@ -134,7 +150,7 @@ Definition cl_advertised (fs : list feature) (q : mon) (e : event) : Prop :=
 (* "only while the session state satisfies that feature's declared prerequisites" *)
 Definition cl_prerequisites (fs : list feature) (q : mon) (e : event) : Prop :=
   match e with
-  | ENeg f st _ => eligible f st = true \/ forced fs q f st
+  | ENeg f st _ => eligible f st = true      (* also for the forced STARTTLS attempt *)
   | _ => True
   end.
 
@@ -149,11 +165,13 @@ Definition cl_voluntary_first (q : mon) (e : event) : Prop :=
   | _ => True
   end.
 
-(* "state bits only ever get added": the state seen by Negotiate, or at a read,
-   contains every bit seen before and every bit a successful Negotiate returned *)
+(* "state bits only ever get added": the state seen by Negotiate is exactly the
+   initial bits plus the masks of the successful Negotiate calls before it (no
+   bit is lost, none appears from elsewhere); the state at a read or written
+   with a list contains all of them *)
 Definition cl_monotone (q : mon) (e : event) : Prop :=
   match e with
-  | ENeg _ st _ => has st (q_last q) = true
+  | ENeg _ st _ => st = q_last q
   | EIn _ st _ => has st (q_last q) = true
   | EOut (WFeatures st _ _) => has st (q_last q) = true
   | _ => True
@@ -202,6 +220,24 @@ Definition cl_all (fs : list feature) (q : mon) (e : event) : Prop :=
 Definition pending (q : mon) : Prop :=
   exists g, In (true, g) (q_cache q) /\ cand (q_negd q) (q_last q) (true, g) = true.
 
+(* the literal reading of "eligible mandatory feature of the last advertisement
+   left un-negotiated": marked required by the last advertisement, negotiable,
+   not negotiated on this stream, prerequisites hold NOW — whether or not they
+   held when it was advertised (then it never entered the cache) *)
+Definition pending_adv (q : mon) : Prop :=
+  exists g, In (true, g) (q_advall q) /\ cand (q_negd q) (q_last q) (true, g) = true.
+
+(* the literal reading of "voluntary features are taken before mandatory ones":
+   no voluntary feature the advertisement named is open when a required one is
+   taken, also one whose prerequisites did not hold when it was advertised *)
+Definition cl_voluntary_first_literal (q : mon) (e : event) : Prop :=
+  match e with
+  | ENeg f st _ =>
+      q_recv q = false -> In (true, f) (q_cache q) ->
+      forall g, In (false, g) (q_advall q) -> cand (q_negd q) st (false, g) = false
+  | _ => True
+  end.
+
 (* "A session is reported established only with the ready bit set and with no
    eligible mandatory feature of the last advertisement left un-negotiated"
    (and not in the middle of a restart) *)
@@ -220,6 +256,25 @@ Definition established_partial (q : mon) (r : result) : Prop :=
 (* a refused selection ends the run with the error the monitor predicted *)
 Definition refusal_reported (q : mon) (r : result) : Prop :=
   forall e, q_refused q = Some e -> r_class r = RErr e.
+
+(* the state after a Negotiate call that saw st and returned o *)
+Definition after_neg (st : N) (o : outcome) : N := if o_err o then st else N.lor st (o_mask o).
+
+(* the state bits as the Negotiate events of a trace determine them, from b *)
+Fixpoint acc_bits (b : N) (tr : list event) : N :=
+  match tr with
+  | [] => b
+  | ENeg _ st o :: r => acc_bits (after_neg st o) r
+  | _ :: r => acc_bits b r
+  end.
+
+(* some successful Negotiate call of the trace returned Ready in its own mask *)
+Fixpoint self_ready (tr : list event) : bool :=
+  match tr with
+  | [] => false
+  | ENeg _ _ o :: r => (has (o_mask o) st_Ready && negb (o_err o)) || self_ready r
+  | _ :: r => self_ready r
+  end.
 
 (* ------------------------------------------------------------------ witnesses and examples (definitions only) *)
 
@@ -241,6 +296,15 @@ Definition w1_run : result :=
 Definition w2_run : result :=
   run cfg_ab 0 [hdr; mkItem false (PFeatures [FC xa (str "a") false false])] []
       [mkO st_Ready true false] [xa].
+
+(* W3: the advertisement marks b required while b's prerequisite (Authn) does not
+   hold yet; the voluntary a sets Authn without a restart; nothing cached is left:
+   established, b advertised as required, eligible now, not negotiated *)
+Definition fb_authn : feature := mkF xb (str "b") st_Authn 0 true KAbstract true false.
+Definition cfg_w3 : config := mkCfg [mkF xa (str "a") 0 0 true KAbstract false false; fb_authn] false false true (str "example.net") None false.
+Definition w3_run : result :=
+  run cfg_w3 0 [hdr; mkItem false (PFeatures [FC xa (str "a") false false; FC xb (str "b") true false])] []
+      [mkO st_Authn false false] [xa].
 
 Definition mon_of (c : config) (bits : N) (r : result) : mon := final (c_feats c) (c_ws c) (mon0 bits) (trace r).
 
@@ -287,3 +351,13 @@ Fixpoint negs (tr : list event) : list (name * N) :=
   | ENeg f st _ :: r => (fname f, st) :: negs r
   | _ :: r => negs r
   end.
+
+(* W4: v is voluntary and needs Authn, a is voluntary and sets Authn, r is
+   required: after a only r is in the cache, r is taken while v — advertised,
+   voluntary, eligible by now — is open *)
+Definition fv_authn : feature := mkF xb (str "b") st_Authn 0 true KAbstract false false.
+Definition cfg_w4 : config := mkCfg [mkF xa (str "a") 0 0 true KAbstract false false; fv_authn; fr3] false false true (str "example.net") None false.
+Definition w4_run : result :=
+  run cfg_w4 0 [hdr; mkItem false (PFeatures [FC xa (str "a") false false; FC xb (str "b") false false; FC xc (str "c") true false])] []
+      [mkO st_Authn false false; mkO 0 false false] [xa; xc].
+
